@@ -52,10 +52,13 @@ mod vx_proofs {
     fn expected(d: %(R)s) -> Option<En> {
 %(arms)s        None
     }
-    #[kani::proof]
+    // Kani function contract on a thin forwarding wrapper of the real generated function, proved for every d of the repr type
+    #[kani::ensures(|r: &Option<En>| *r == expected(d))]
+    fn from_repr_contract(d: %(R)s) -> Option<En> { En::from_repr(d) }
+    #[kani::proof_for_contract(from_repr_contract)]
     fn twin_from_repr() {
         let d: %(R)s = kani::any();
-        assert!(En::from_repr(d) == expected(d));
+        from_repr_contract(d);
     }
 }
 ''' % dict(E=E, inst=inst, shadow=shadow, R=R, arms=arms)
